@@ -1,12 +1,12 @@
 #!/bin/bash
 # seed_detect.sh [ids...] : apply each confirmed seeded change to /repo, run the property's quick check, undo, record what fired
-cd /verif
+VERIF_DIR=${VERIF_DIR:-/verif}; cd $VERIF_DIR
 ids="$@"
 [ -z "$ids" ] && ids=$(ls seeded | grep -E '^C[0-9]+-[A-Z]$')
 mkdir -p /root/detect
 for id in $ids; do
   prop=${id%-*}
-  if ! git -C /repo apply /verif/seeded/$id/patch.diff 2>/root/detect/$id.apply; then echo "$id APPLY-FAILED"; continue; fi
+  if ! git -C /repo apply $VERIF_DIR/seeded/$id/patch.diff 2>/root/detect/$id.apply; then echo "$id APPLY-FAILED"; continue; fi
   timeout 1500 ./check $prop quick > /root/detect/$id.out 2>&1; rc=$?
   git -C /repo checkout -- . ; git -C /repo status --short | grep -v '^??' | head -2
   keys=$(grep -E '^VIOLATION' /root/detect/$id.out | sed -E 's/.* key=([^ ]+) .*/\1/' | sort -u | head -6 | paste -sd' ')
